@@ -345,6 +345,40 @@ fn run_inner(line: &str, with_ref: bool) -> String {
                 h.w.update::<Bank>(&h.banks[b], |bk| bk.flags = fl);
                 Ok(())
             }
+            33 => {
+                // fixture: set the given bits of the flag word of marginfi account a (0 = clear IN_RECEIVERSHIP / IN_DELEVERAGE)
+                let a = t.usize();
+                let fl = t.u64();
+                h.w.update::<MarginfiAccount>(&h.accts[a], |ac| {
+                    if fl == 0 {
+                        ac.account_flags &= !(16u64 | 32u64);
+                    } else {
+                        ac.account_flags |= fl;
+                    }
+                });
+                Ok(())
+            }
+            36 => {
+                // probe: would lending_pool_close_bank succeed? (real instruction through the entry point; on success the
+                // closed bank account and the group are put back, so that the history continues)
+                let b = t.usize();
+                let saved_bank = h.w.account(&h.banks[b]).cloned();
+                let saved_group = h.w.account(&group).cloned();
+                let saved_admin = h.w.account(&h.admin).cloned();
+                let r = h.w.exec(ixs::lending_pool_close_bank(group, h.banks[b], h.admin), &[h.admin]);
+                if r.is_ok() {
+                    if let Some(a) = saved_bank {
+                        h.w.accounts.insert(h.banks[b], a);
+                    }
+                    if let Some(a) = saved_group {
+                        h.w.accounts.insert(group, a);
+                    }
+                    if let Some(a) = saved_admin {
+                        h.w.accounts.insert(h.admin, a);
+                    }
+                }
+                r
+            }
             _ => panic!("bad op"),
         };
         let rs = match &res {
